@@ -211,6 +211,22 @@ def print_assumptions(props_vrel):
     return p.returncode == 0, p.stdout + p.stderr
 
 
+def coqchk(props_vrel, timeout=1500):
+    """independent re-check of the compiled Props file and everything it depends on; -> (ok, axioms reported, tail of output)"""
+    lib = LIB + '.' + props_vrel[len('theories/'):-2].replace('/', '.')
+    with Lock():
+        p = subprocess.run(
+            ['timeout', str(timeout), 'coqchk', '-silent', '-o', '-R', 'theories', LIB, lib],
+            cwd=COQ, capture_output=True, text=True,
+        )
+    out = p.stdout + p.stderr
+    axioms = []
+    m = re.search(r'\* Axioms:(.*?)(?:\n\* |\Z)', out, flags=re.S)
+    if m:
+        axioms = [x.strip() for x in m.group(1).strip().splitlines() if x.strip() and x.strip() != '<none>']
+    return p.returncode == 0, axioms, out[-1500:]
+
+
 def parse_assumptions(text):
     """-> list of 'theorem: Closed under the global context' / axiom names"""
     out = []
